@@ -30,8 +30,10 @@ INVARIANT CurrentWhenDamaged
 CHECK_DEADLOCK FALSE
 """
 TIERS = {
-    "quick": dict(names='"a"', workers="1, 2", maxclock=1, dirs=["small"], protos=["G", "H"], stride=1, crash_stride=23),
-    "thorough": dict(names='"a", "b"', workers="1, 2", maxclock=1, dirs=["small", "both", "filler", "filler-dir"], protos=["G", "GP", "H"], stride=1, crash_stride=1),
+    "quick": dict(names='"a"', workers="1, 2", maxclock=1, dirs=["small"], protos=["G", "H"], stride=1, crash_stride=23,
+                  race_files=["cut0", "cut1"], race_protos=["G"]),
+    "thorough": dict(names='"a", "b"', workers="1, 2", maxclock=1, dirs=["small", "both", "filler", "filler-dir"], protos=["G", "GP", "H"], stride=1, crash_stride=1,
+                     race_files=["none", "full", "cut0", "cut1", "zero"], race_protos=["G", "GP"]),
 }
 DIR_HANDLERS = "[url.HTMLURLHandler, dir.DirHandler, file.FileHandler]"
 DIRS = {
@@ -225,10 +227,13 @@ def main(chk, replay=None):
     if res["inv_violations"]:
         chk.model_violation("MC_C11", res["inv_violations"], res["out"][-3000:])
     jobs = []
+    races, rres = [], None
     if replay:
         with open(replay) as fp:
             c = json.load(fp)["case"]
-        if str(c["dir"]).startswith("zipindex:"):
+        if c.get("kind") == "race":
+            races = [c]
+        elif str(c["dir"]).startswith("zipindex:"):
             jobs = [("zip", c["dir"].split(":", 1)[1], c["kind"], c["n"])]
         elif str(c["dir"]).startswith("crash:"):
             jobs = [("crash", c["dir"].split(":", 1)[1], c["proto"], c["n"])]
@@ -256,9 +261,31 @@ def main(chk, replay=None):
                 jobs.append(("zip", fname, "cut", n))
             jobs.append(("zip", fname, "zero", size))
         _ZW.pop("w").close()
-    traces = cachelib.pool_map(_any_job, jobs, None)
+        # "every point at which a concurrent reader can observe a writer": every complete interleaving of two
+        # requests that find the remains of a crashed writer (or nothing, or a complete file), from MC_Race
+        from harness import race
+        rres, races = race.exhaustive(t["race_files"], t["race_protos"])
+        if rres["inv_violations"]:
+            chk.model_violation("MC_Race", rres["inv_violations"], rres["out"][-3000:])
+    traces = cachelib.pool_map(_any_job, jobs, None) if jobs else []
+    rtraces = []
+    if races:
+        from harness import race
+        rtraces = cachelib.pool_map(race.run, races, None)
+        rtv = tlc.validate_traces("TraceC14", "TraceC14.cfg",
+                                  [{"id": tr["id"], "events": [{k: v for k, v in e.items() if k != "raw"} for e in tr["events"]]}
+                                   for tr in rtraces])
+        for rj in rtv["rejected"]:
+            tr = rtraces[rj["index"]]
+            c = tr["case"]
+            key = "%s|race|start=%s|protos=%s|order=%s" % (rj["clause"], c["f"], "".join(c["ps"]), "".join(str(w) for w, _s in c["h"]))
+            chk.violation(key, rj["clause"], c, {"events": tr["events"]})
+        chk.note_drift(rtv["drift"])
+        if not any(e.get("op") == "load" for tr in rtraces for e in tr["events"]):
+            raise core.MachineryError("C11: no scheduled request ever opened the cache file: scheduler hooks not exercised")
     tv = tlc.validate_traces("TraceC10", "TraceC10.cfg",
-                             [{"id": tr["id"], "init": tr["init"], "events": tr["events"]} for tr in traces])
+                             [{"id": tr["id"], "init": tr["init"], "events": tr["events"]} for tr in traces]) if traces else \
+        {"rejected": [], "drift": [], "accepted": 0, "cmd": "", "states": 0}
     for rj in tv["rejected"]:
         tr = traces[rj["index"]]
         c = tr["case"]
@@ -267,7 +294,8 @@ def main(chk, replay=None):
     chk.note_drift(tv["drift"])
     cov = {
         "states": res["distinct"], "transitions": res["generated"], "exhaustive": True,
-        "traces_validated_against_impl": tv["accepted"], "traces_rejected": len(tv["rejected"]),
+        "traces_validated_against_impl": tv["accepted"] + ((len(rtraces) - len(rtv["rejected"])) if rtraces else 0),
+        "traces_rejected": len(tv["rejected"]) + (len(rtv["rejected"]) if rtraces else 0),
         "evaluations": len(traces), "distinct_nontrivial": len({(tr["case"]["dir"], tr["case"]["kind"], tr["case"]["n"]) for tr in traces}),
         "rule": "for each directory in %s a real request writes the cache file; then every byte prefix 0..size-1 "
                 "(stride %d) and a zero-filled file of full length replaces it and the directory is requested through "
@@ -275,7 +303,14 @@ def main(chk, replay=None):
                 "is fresh, so the loader is exercised)" % (t["dirs"], t["stride"], t["protos"]),
         "samples": [{"id": tr["id"], "events": tr["events"]} for tr in traces[:1] + traces[-1:]],
         "checker_cmd": res["cmd"] + " ; " + tv["cmd"], "trace_states": tv["states"],
-        "bindings": ["B2 every byte prefix replayed on real cache files", "B3 TraceC10 (Answered/Faithful/Harmless)"],
+        "race_model_states": rres["distinct"] if rres else 0,
+        "race_interleavings_replayed": len(rtraces),
+        "race_interleavings_with_real_interleaving": sum(
+            1 for tr in rtraces if len({e["w"] for e in tr["events"] if e["ev"] == "step"}) > 1),
+        "race_traces_accepted": (len(rtraces) - len([1 for _ in rtv["rejected"]])) if rtraces else 0,
+        "bindings": ["B2 every byte prefix replayed on real cache files", "B3 TraceC10 (Answered/Faithful/Harmless)",
+                     "B2 every complete interleaving of MC_Race (two requests meeting a damaged / absent / complete file) "
+                     "replayed on real handler threads, judged by TraceC14"],
     }
     return chk.finish(cov, [
         "abstraction: every proper byte prefix is the abstract Cut to fewer than Full chunks (0 bytes = 0 chunks)",
